@@ -689,6 +689,11 @@ func init() {
 			m.Fee = coinP(Pick(g.R, workDenoms), big.NewInt(0))
 		default:
 			m.Fee = coinP(Pick(g.R, workDenoms), big.NewInt(int64(Pick(g.R, []int{1, 1000, 20000000}))))
+			if len(v.Baskets) > 0 && g.R.Chance(0.12) {
+				// any valid denomination may be chosen - also the token of a basket
+				g.W.Probe("creation_fee_set_in_a_basket_token")
+				m.Fee = coinP(v.Baskets[g.R.Intn(len(v.Baskets))].BasketDenom, big.NewInt(int64(Pick(g.R, []int{1, 7, 1000}))))
+			}
 		}
 		return m
 	})
@@ -892,6 +897,10 @@ func init() {
 			m.Fee = coinP(Pick(g.R, workDenoms), big.NewInt(0))
 		default:
 			m.Fee = coinP(Pick(g.R, workDenoms), big.NewInt(int64(Pick(g.R, []int{1, 1000, 20000000}))))
+			if len(v.Baskets) > 0 && g.R.Chance(0.12) {
+				g.W.Probe("creation_fee_set_in_a_basket_token")
+				m.Fee = coinP(v.Baskets[g.R.Intn(len(v.Baskets))].BasketDenom, big.NewInt(int64(Pick(g.R, []int{1, 7, 1000}))))
+			}
 		}
 		return m
 	})
